@@ -49,10 +49,13 @@ func genC11(t *rapid.T) c11Case {
 	c.Stack.Strategy = rapid.SampledFrom([]string{"simple", "precise"}).Draw(t, "strategy")
 	c.Stack.Backlog = rapid.IntRange(2, 6).Draw(t, "backlog")
 	c.Stack.TimeoutMs = rapid.SampledFrom([]int{10, 10, 20, 20, 40, 100, 1000}).Draw(t, "timeout")
-	if rapid.IntRange(0, 7).Draw(t, "forever") == 0 {
+	if rapid.IntRange(0, 5).Draw(t, "forever") == 0 {
 		// "wait for as long as it takes": the largest durations there are; only releases (and evicting cancellations) end a wait
 		c.Stack.TimeoutMs = 0
 		c.Stack.TimeoutNs = rapid.SampledFrom([]int64{math.MaxInt64, math.MaxInt64 - 1, math.MaxInt64 / 2, int64(250 * 365 * 24 * time.Hour)}).Draw(t, "foreverNs")
+	}
+	if c.Stack.TimeoutNs != 0 && c.Stack.Kind != "pool" && c.Stack.Kind != "fixedpool" && rapid.IntRange(0, 2).Draw(t, "negForever") == 0 {
+		c.Stack.TimeoutNs = rapid.SampledFrom([]int64{-1, -1_000_000_000}).Draw(t, "negNs") // the queue limiter's other spelling of "no time-out"
 	}
 	switch c.Stack.Kind {
 	case "queue":
